@@ -134,6 +134,10 @@ def main():
     kinds = ["pass", "fixable", "between", "unfixable", "badtext", "badbg", "translucent", "hsl", "extreme", "twinA", "twinB", "hairres", "digits"]
     for _ in range(30 if t == "quick" else 600):     # longer lists
         chosen.append(tuple((rnd.choice(kinds), rnd.choice((2, 3, 4))) for _ in range(rnd.randrange(4, 13))))
+    # long lists (130 and 1100-1300 entries, mostly cheap already-readable ones): position i of the result is entry i's answer
+    cheap = ["pass", "pass", "pass", "pass", "extreme", "between", "badtext", "pass", "fixable", "digits"]
+    for ln in ([130, 1100] if t == "quick" else [130, 257, 1001, 1300, 2100]):
+        chosen.append(tuple((rnd.choice(cheap), rnd.choice((2, 3, 4))) for _ in range(ln)))
     jobs = [(l, k % 3, bool((k // 3) & 1), rnd.randrange(1 << 30)) for k, l in enumerate(chosen)]
     res = vlib.pool_map(_beh, jobs, chunksize=4)
     keys, cols = apirec.Interner(), apirec.Interner()
